@@ -47,11 +47,16 @@ func init() { register(c09{}) }
 
 var c09Kinds = []string{"swap-cons", "deref", "reset", "swap-conj", "swap-wide", "swap-throw", "swap-typeerr",
 	"swap-reads-other", "swap-derefs-self", "swap-updates-other", "swap-resets-other", "gensym", "memo",
-	"deref-fn", "swap-extra-args", "swap-late-throw", "swap-derefs-self-wide", "swap-in-let", "reset-computed", "swap-bounded", "swap-extra-args3"}
+	"deref-fn", "swap-extra-args", "swap-late-throw", "swap-derefs-self-wide", "swap-in-let", "reset-computed", "swap-bounded", "swap-extra-args3",
+	"swap-vec", "swap-list", "swap-conj-wide", "swap-panic", "swap-panic-params", "vswap-assoc", "vswap-assoc-throw", "vswap-assoc-wide", "vderef"}
 var c09Weights = []int{5, 4, 3, 2, 3, 1, 1, 2, 1, 2, 1, 1, 1,
-	2, 2, 1, 1, 1, 1, 3, 2}
+	2, 2, 1, 1, 1, 1, 3, 2,
+	2, 1, 2, 1, 1, 2, 1, 1, 1}
 
 func atomName(i int) string { return "a" + strconv.Itoa(i) }
+
+// vaBase: partition numbers of the vector-valued atoms va0..va2
+const vaBase = 10
 
 func (op *c09Op) build() {
 	a := atomName(op.Atom)
@@ -82,7 +87,7 @@ func (op *c09Op) build() {
 		id := nid("deref", a, "")
 		src = "(swap! " + a + " (fn [v] (do (h-begin " + id + ") (h-end " + id + " @" + a + ") (cons " + k + " v))))"
 	case "swap-updates-other":
-		id := nid("swap-cons", b, k2)
+		id := nid("swap-conj", b, k2)
 		src = "(swap! " + a + " (fn [v] (do (h-begin " + id + ") (h-end " + id + " (swap! " + b + " conj " + k2 + ")) (cons " + k + " v))))"
 	case "swap-resets-other":
 		id := nid("reset", b, k2)
@@ -107,6 +112,28 @@ func (op *c09Op) build() {
 	case "swap-extra-args3":
 		// three distinct extra arguments, all of which must reach the function on every application
 		src = "(swap! " + a + " (fn [v x y z] (cons x (if (= (list y z) (list :y" + k + " \"z" + k + "\")) v (cons :wrong-args v)))) " + k + " :y" + k + " \"z" + k + "\")"
+	case "swap-vec":
+		// same elements, other collection type: equal under =, different for what follows
+		src = "(swap! " + a + " vec)"
+	case "swap-list":
+		src = "(swap! " + a + " (fn [v] (apply list v)))"
+	case "swap-conj-wide":
+		src = "(swap! " + a + " (fn [v] (do (spin " + strconv.Itoa(op.Spin) + ") (conj v " + k + "))))"
+	case "swap-panic":
+		// the update function fails with a Go panic raised by a raw builtin (eval without argument)
+		src = "(swap! " + a + " (fn [v] (do (count v) (eval))))"
+	case "swap-panic-params":
+		// ... or by a malformed parameter list met at call time
+		src = "(swap! " + a + " (fn [v] ((fn [x &] x) " + k + ")))"
+	case "vswap-assoc":
+		src = "(swap! va" + strconv.Itoa(op.Atom) + " assoc " + strconv.Itoa(op.Tok%3) + " " + k + ")"
+	case "vswap-assoc-wide":
+		src = "(swap! va" + strconv.Itoa(op.Atom) + " (fn [v] (do (spin " + strconv.Itoa(op.Spin) + ") (assoc v " + strconv.Itoa(op.Tok%3) + " " + k + "))))"
+	case "vswap-assoc-throw":
+		// builds its candidate with assoc, then fails: the atom's vector must be untouched
+		src = "(swap! va" + strconv.Itoa(op.Atom) + " (fn [v] (do (assoc v " + strconv.Itoa(op.Tok%3) + " " + k + ") (throw " + k + "))))"
+	case "vderef":
+		src = "@va" + strconv.Itoa(op.Atom)
 	case "gensym":
 		src = "(gensym)"
 	case "memo":
@@ -127,22 +154,35 @@ type atomIn struct {
 	Limit int
 }
 
-// listLen counts the elements of a canonical flat list of integers "(a b c)".
-func listLen(l string) int {
-	if l == "()" || len(l) < 2 {
-		return 0
+// listLen counts the elements of a canonical flat sequence.
+func listLen(l string) int { return len(seqElems(l)) }
+
+// seqElems returns the elements of a canonical flat sequence "(a b)" / "[a b]".
+func seqElems(s string) []string {
+	if len(s) < 2 {
+		return nil
 	}
-	return strings.Count(l, " ") + 1
+	in := strings.TrimSpace(s[1 : len(s)-1])
+	if in == "" {
+		return nil
+	}
+	return strings.Split(in, " ")
 }
 
-func consCanon(tok, list string) string {
-	if list == "()" {
-		return "(" + tok + ")"
+func mkList(e []string) string { return "(" + strings.Join(e, " ") + ")" }
+func mkVec(e []string) string  { return "[" + strings.Join(e, " ") + "]" }
+
+// consCanon: cons always yields a list, whatever the sequence type.
+func consCanon(tok, seq string) string {
+	return mkList(append([]string{tok}, seqElems(seq)...))
+}
+
+// conjCanon: conj prepends to a list and appends to a vector.
+func conjCanon(tok, seq string) string {
+	if strings.HasPrefix(seq, "[") {
+		return mkVec(append(append([]string{}, seqElems(seq)...), tok))
 	}
-	if strings.HasPrefix(list, "(") {
-		return "(" + tok + " " + list[1:]
-	}
-	return "#not-a-list<" + list + ">"
+	return consCanon(tok, seq)
 }
 
 var atomModel = porcupine.Model{
@@ -162,6 +202,25 @@ var atomModel = porcupine.Model{
 			return out == v, v
 		case "swap-fail":
 			return true, st
+		case "swap-vec-init":
+			return true, "[0 0 0]"
+		case "swap-conj":
+			v := conjCanon(in.Tok, st)
+			return out == v, v
+		case "swap-vec":
+			v := mkVec(seqElems(st))
+			return out == v, v
+		case "swap-list":
+			v := mkList(seqElems(st))
+			return out == v, v
+		case "vassoc":
+			e := seqElems(st)
+			if in.Limit < len(e) {
+				e = append([]string{}, e...)
+				e[in.Limit] = in.Tok
+			}
+			v := mkVec(e)
+			return out == v, v
 		case "swap-bounded":
 			if listLen(st) > in.Limit {
 				return out == "#thrown<"+in.Tok+">", st
@@ -275,6 +334,7 @@ func (c09) Run(tp *Tape, opt RunOpt) *RunOut {
 	setup := "(do (def spin (fn [n] (if (> n 0) (spin (- n 1)) nil))) (def memo-f (memoize (fn [x] (* x 2))))"
 	for i := 0; i < nAtoms; i++ {
 		setup += " (def " + atomName(i) + " (atom ()))"
+		setup += " (def va" + strconv.Itoa(i) + " (atom [0 0 0]))"
 	}
 	setup += " nil)"
 	if _, err := lisp.EVAL(context.Background(), mustRead(setup), e); err != nil {
@@ -322,6 +382,10 @@ func (c09) Run(tp *Tape, opt RunOpt) *RunOut {
 		op.ast = mustRead(op.Src)
 		ops[op.ID] = op
 		w.finals = append(w.finals, op)
+		vop := &c09Op{ID: "vfinal." + strconv.Itoa(ai), Kind: "vderef", Atom: ai, Src: "@va" + strconv.Itoa(ai)}
+		vop.ast = mustRead(vop.Src)
+		ops[vop.ID] = vop
+		w.finals = append(w.finals, vop)
 	}
 	fctx, fcancel := context.WithCancel(context.Background())
 	s.AddCancel(fcancel)
@@ -365,8 +429,23 @@ func (c09) Run(tp *Tape, opt RunOpt) *RunOut {
 				r.in = atomIn{Kind: "reset", Tok: strconv.Itoa(op.Tok)}
 			case "swap-bounded":
 				r.in = atomIn{Kind: "swap-bounded", Tok: strconv.Itoa(op.Tok), Limit: op.Limit}
-			case "swap-throw", "swap-typeerr", "swap-late-throw":
+			case "swap-throw", "swap-typeerr", "swap-late-throw", "swap-panic", "swap-panic-params":
 				r.in = atomIn{Kind: "swap-fail", Tok: strconv.Itoa(op.Tok)}
+			case "swap-conj", "swap-conj-wide":
+				r.in = atomIn{Kind: "swap-conj", Tok: strconv.Itoa(op.Tok)}
+			case "swap-vec":
+				r.in = atomIn{Kind: "swap-vec"}
+			case "swap-list":
+				r.in = atomIn{Kind: "swap-list"}
+			case "vswap-assoc", "vswap-assoc-wide":
+				r.atom = vaBase + op.Atom
+				r.in = atomIn{Kind: "vassoc", Tok: strconv.Itoa(op.Tok), Limit: op.Tok % 3}
+			case "vswap-assoc-throw":
+				r.atom = vaBase + op.Atom
+				r.in = atomIn{Kind: "swap-fail", Tok: strconv.Itoa(op.Tok)}
+			case "vderef":
+				r.atom = vaBase + op.Atom
+				r.in = atomIn{Kind: "deref"}
 			case "gensym", "memo":
 				r.atom = -1
 			default:
@@ -393,7 +472,11 @@ func (c09) Run(tp *Tape, opt RunOpt) *RunOut {
 				if ev.B != want {
 					memoBad = op.Src + " returned " + ev.B + ", want " + want
 				}
-			case "swap-throw", "swap-late-throw":
+			case "swap-panic", "swap-panic-params":
+				if !r.isErr {
+					out.Violations = append(out.Violations, Violation{"C09.failed-update", "swap-panic", op.Src + " returned " + ev.B + " although its update function failed with a Go panic"})
+				}
+			case "swap-throw", "swap-late-throw", "vswap-assoc-throw":
 				if !r.isErr || ev.B != "#thrown<"+strconv.Itoa(op.Tok)+">" {
 					out.Violations = append(out.Violations, Violation{"C09.failed-update", "swap-throw", op.Src + " returned " + ev.B + " instead of the thrown value"})
 				}
@@ -402,7 +485,7 @@ func (c09) Run(tp *Tape, opt RunOpt) *RunOut {
 					out.Violations = append(out.Violations, Violation{"C09.failed-update", "swap-typeerr", op.Src + " returned " + ev.B + " instead of an error"})
 				}
 			default:
-				if r.isErr && op.Kind != "swap-bounded" {
+				if r.isErr && op.Kind != "swap-bounded" && op.Kind != "vswap-assoc-throw" {
 					// an operation whose update function cannot fail returned an error
 					out.Violations = append(out.Violations, Violation{"C09.spurious-error", op.Kind, op.Src + " failed: " + ev.B})
 					r.in = atomIn{Kind: "swap-fail"}
@@ -526,8 +609,15 @@ func (c09) Run(tp *Tape, opt RunOpt) *RunOut {
 	}
 
 	if s.Aborted == "" {
-		for ai := 0; ai < nAtoms; ai++ {
+		for ai := 0; ai < vaBase+nAtoms; ai++ {
+			if ai >= nAtoms && ai < vaBase {
+				continue
+			}
 			var pops []porcupine.Operation
+			if ai >= vaBase {
+				// the vector atoms start as [0 0 0]: an initial installation before everything else
+				pops = append(pops, porcupine.Operation{ClientId: 100000, Input: atomIn{Kind: "swap-vec-init"}, Call: 0, Output: "[0 0 0]", Return: 0})
+			}
 			for i, r := range recs {
 				if r.atom != ai || !r.done {
 					continue
@@ -557,13 +647,17 @@ func (c09) Run(tp *Tape, opt RunOpt) *RunOut {
 						kinds[r.in.Kind] = true
 					}
 				}
+				aname := atomName(ai)
+				if ai >= vaBase {
+					aname = "va" + strconv.Itoa(ai-vaBase)
+				}
 				var ks []string
 				for k := range kinds {
 					ks = append(ks, k)
 				}
 				sort.Strings(ks)
 				out.Violations = append(out.Violations, Violation{"C09.linearizability", strings.Join(ks, "+"),
-					"history of " + atomName(ai) + " is not linearizable:\n  " + strings.Join(lines, "\n  ")})
+					"history of " + aname + " is not linearizable:\n  " + strings.Join(lines, "\n  ")})
 			}
 		}
 		seen := map[string]bool{}
